@@ -241,10 +241,14 @@ func runC45(t *testing.T, prof c45Profile, quick, thorough int) {
 	ev.Floor("attempt:nonauth-key", "call", 0.005)
 	ev.Floor("attempt:threshold-short", "call:group", 0.02)
 	ev.Floor("attempt:threshold-short-dup", "call:group", 0.02)
-	ev.Floor("attempt:threshold-short-dup:ctl", "", 0.05) // per history (each profile is its own process)
-	ev.Floor("attempt:threshold-short-dup:rec", "", 0.10)
-	ev.Floor("attempt:threshold-short-dup:reg", "", 0.02)
-	ev.Floor("attempt:threshold-short-dup:nested", "", 0.01)
+	// per history; each profile is its own process, so these floors are tied to the profile's own weight of
+	// controller/recovery actions (profile "owner" draws them a quarter as often as "ctlrec": a fixed floor
+	// sat inside its noise and starved once in a quick run)
+	grpShare := float64(prof.ctl+prof.rec) / 8.0
+	ev.Floor("attempt:threshold-short-dup:ctl", "", 0.05*grpShare)
+	ev.Floor("attempt:threshold-short-dup:rec", "", 0.10*grpShare)
+	ev.Floor("attempt:threshold-short-dup:reg", "", 0.02*grpShare)
+	ev.Floor("attempt:threshold-short-dup:nested", "", 0.01*grpShare)
 	ev.Floor("call:on-revoked-id", "call", 0.02)
 	ev.Floor("register:again", "call", 0.01)
 	ev.Floor("revoke:ok", "", 0.10)
